@@ -96,8 +96,8 @@ def st_op(draw, feats):
         # a call that is rejected as a whole (documented ValueError); the writer
         # is used again afterwards
         return {"op": "bad", "what": draw(st.sampled_from(
-            ["meta-key", "meta-section", "feature-name", "empty"])),
-            "f": draw(st.sampled_from(feats))}
+            ["meta-key", "meta-section", "feature-name", "empty", "contour-batch"])),
+            "f": draw(st.sampled_from(feats)), "seed": draw(st.integers(0, 2**16))}
     if kind == "feat":
         f = draw(st.sampled_from(feats))
         op = {"op": "feat", "f": f, "k": draw(st.sampled_from(
@@ -390,6 +390,37 @@ def _run(spec, rec, d):
                     what = op["what"]
                     if what == "empty" and (mode == "replace"
                                             or _kind(op["f"]) != "scalar"):
+                        continue
+                    if what == "contour-batch":
+                        # a batch whose last item is not an array: the call raises
+                        # after the leading contours were stored; whatever the writer
+                        # keeps of them, later contours must follow on consecutively
+                        cur = model.length("contour") if "contour" in feats else N
+                        if mode == "replace" or N - cur < 1:
+                            continue
+                        kgood = min(2, N - cur)
+                        passed, exp = gen_data("contour", kgood, {
+                            "seed": op.get("seed", 0), "variant": 0}, None)
+                        try:
+                            hw.store_feature("contour", list(passed) + [[[1, 2], [3]]])
+                        except (ValueError, TypeError, AttributeError):
+                            rec.cls("rejected-call:contour-batch")
+                        else:
+                            rec.skip("rejected-call-accepted:contour-batch")
+                            continue
+                        grp = hw.h5file["events"].get("contour", {})
+                        kept = len(grp) - cur
+                        if not rec.check(kept in (0, kgood),
+                                         "rejected-call/contour-batch/kept",
+                                         lambda: f"{len(grp)} contours stored after a "
+                                                 f"batch of {kgood}+1 failed on {cur}"):
+                            return
+                        if kept:
+                            calls["contour"] = calls["contour"] + [
+                                (cur, kgood, _chunk_events("contour", sess["chunk"]), si)]
+                            model.store("contour", exp, kgood, mode)
+                            wrote_any = True
+                            any_feat_call = True
                         continue
                     marker = "vf-must-not-appear"
                     try:
